@@ -496,6 +496,12 @@ func (e *Engine) writeEvidence(results []*EntryResult, tier string, seed int64, 
 	for _, i := range intr {
 		tb = append(tb, "intrinsic model: "+i)
 	}
+	for _, z := range e.cfg.ZeroStubs {
+		tb = append(tb, "stubbed (returns zero values): "+z)
+	}
+	for from, to := range e.cfg.Redirects {
+		tb = append(tb, "redirected to harness function: "+from+" -> "+to)
+	}
 	ev := map[string]interface{}{
 		"property_id": e.cfg.Property,
 		"tier":        tier,
